@@ -326,3 +326,12 @@ def _ctc_names_unicode(draw, j):
 JSON = Profile(unicode_names(), single=("mandatory", "optional"),
                group=("alternative", "or", "mutex", "card"), layout="free", attrs=_json_attrs,
                ctc_depth=4, ctc_max=4, ctc_names=_ctc_names_unicode)
+
+
+def _ctc_names_distinct(draw, j):
+    return draw(st.one_of(st.just(f"C{j}"), unicode_names().map(lambda s: f"{s}#{j}")))
+
+
+GLENCOE = Profile(unicode_names(), single=("mandatory", "optional"),
+                  group=("alternative", "or", "mutex", "card"), layout="one_group", group_plus_mandatory=True,
+                  abstract=False, ctc_depth=3, ctc_max=4, ctc_names=_ctc_names_distinct)
